@@ -138,7 +138,7 @@ func (cx *Ctx) rebuiltFromImported(it roleTable, px string) bool {
 		return false
 	}
 	for _, u := range it["write"][px] {
-		args := u.site.Common().Args
+		args := storeArgs(u.site)
 		if len(args) < 2 {
 			return false
 		}
@@ -499,7 +499,7 @@ func keyDeps(ev *Event, top *Frame) ([]ssa.Value, map[*ssa.Function]bool) {
 		v     ssa.Value
 		field int
 	}
-	cur := []fv{{ev.Site.(ssa.CallInstruction).Common().Args[0], -1}}
+	cur := []fv{{storeArgs(ev.Site.(ssa.CallInstruction))[0], -1}}
 	for f := ev.Fr; f != nil && f != top; f = f.Parent {
 		if f.Call == nil {
 			return nil, callees
@@ -760,11 +760,19 @@ func (cx *Ctx) c12ImportLoops(r *Report) {
 					// read-modify-write of one key (a counter / running total): the
 					// value written derives from a read of the same prefix
 					valS := w.expandCalls(ev.Fr, ev.Args[1], 3).LooseString()
+					if os.Getenv("DEBUG_G3") != "" {
+						fmt.Fprintf(os.Stderr, "G3 %s valS=%s getters=%d\n", pfx, trunc(valS, 300), len(cx.gettersOf(m, ev.Prefix)))
+					}
 					for _, g := range cx.gettersOf(m, ev.Prefix) {
 						if strings.Contains(valS, callNameOfFn(g)+"(") {
 							r.ok("G3-import-loop-key", key, ev.Pos(cx), "loop-invariant key, but the value written is computed from the value read back from the same key ("+callNameOfFn(g)+"): an accumulator, nothing is lost")
 							dep = true
 						}
+					}
+					if !dep && strings.Contains(valS, ".Get(") && strings.Contains(valS, keyS) {
+						// (the getter seen through: a store read of the very key that is written)
+						r.ok("G3-import-loop-key", key, ev.Pos(cx), "loop-invariant key, but the value written is computed from the value read back from the same key: an accumulator, nothing is lost")
+						dep = true
 					}
 					if dep {
 						break
